@@ -1049,15 +1049,28 @@ package router
 //@   props C18
 //@   requires r != nil && r.cancel != nil && r.limiter != nil && closersOK(r) && upstreamsOK(r)
 //@   ghost nCancel int = 0
+//@   ghost nLim int = 0
+//@   ghost nCache int = 0
+//@   ghost nF int = 0
+//@   oncall cancel: nCancel = nCancel + 1
+//@   oncall resourceLimiter.Close: nLim = nLim + 1
+//@   oncall cacheCtl.Close: nCache = nCache + 1
+//@   oncall f: nF = nF + 1
 //@   dyncall f: modifies nothing
 //@   dyncall cancel: modifies nothing
 //@   modifies nothing
+//@   ensures [C18:context-cancelled-limiter-and-cache-closed] nCancel == 1 && nLim == 1 && (old(r.cache) != nil ==> nCache == 1)
+//@   ensures [C18:every-registered-closer-called-once] nF == len(r.serverClosers)
+//@   callsite cancel: [C18:with-the-cause] arg0 == err
+//@   callsite resourceLimiter.Close: [C18:this-routers-limiter] arg0 == r.limiter
+//@   callsite cacheCtl.Close: [C18:this-routers-cache] arg0 == r.cache
 //@   loop 1:
 //@     modifies nothing
 //@     invariant upstreamsOK(r)
 //@   loop 2:
 //@     modifies nothing
 //@     invariant closersOK(r)
+//@     invariant [count] nF == rangeindex + 1
 
 //@ func replyMatchesQuestion(resp *dnsmsg.Msg, q *dnsmsg.Question) (ok bool)
 //@   props C03 C01
@@ -1598,3 +1611,26 @@ package router
 //@   requires s != nil && routerReady(s.r) && s.logger != nil && c != nil
 //@   modifies *
 //@   callsite handleConn: [C15:the-admitted-connection] arg0 == s && arg1 == c
+
+// upstreamWrapper.Close closes the upstream it wraps, once, and reports its error.
+//@ func (uw *upstreamWrapper) Close() (err error)
+//@   props C18
+//@   requires uwOK(uw)
+//@   ghost nC int = 0
+//@   ghost gE error = nil
+//@   oncall Close: nC = nC + 1
+//@   aftercall Close: gE = ret0
+//@   modifies *
+//@   ensures [C18:wrapped-upstream-closed-once] nC == 1 && err == gE
+//@   callsite Close: [C18:the-wrapped-upstream] arg0 == uw.u
+
+// resourceLimiter.Close stops the client limiter's collector when there is one.
+//@ func (l *resourceLimiter) Close() (err error)
+//@   props C18
+//@   requires l != nil
+//@   ghost nC int = 0
+//@   oncall ClientLimiter.Close: nC = nC + 1
+//@   modifies nothing
+//@   ensures [C18:client-limiter-closed] err == nil && (old(l.cl) != nil ==> nC == 1)
+//@   callsite ClientLimiter.Close: [C18:its-own-limiter] arg0 == l.cl
+
